@@ -3610,3 +3610,36 @@ Proof.
   split; [exact w3_f1|]. split; [exact w3_f2|]. split; [exists w3_d0; exact w3_f3|]. split; [exact w3_f4|].
   exists w3_d. split; [exact w3_f5|]. split; [exact w3_f6|]. split; [exact w3_f7|exact w3_f8].
 Qed.
+
+(* implicit nodes of EVERY enclosing case when the only explicit data sit in the innermost case of a choice nested three
+   deep (the walk `scase->parent != snode` of lyd_new_implicit; seeded change C02-5 stops at the innermost case):
+     choice c0 { case a { leaf da { default 1 }  container np { leaf dn { default 2 } }
+                          choice c1 { case b { leaf db { default 3 }
+                                               choice c2 { case c { leaf x } case c' { leaf y { default 4 } } } } } }
+                 case z { leaf q } }
+   sids: da 0, np 1, dn 2, db 3, x 4, y 5, q 6; the input is <x>x</x> *)
+Definition w4_a := mk_chc 0 0 false false.
+Definition w4_z := mk_chc 0 1 false false.
+Definition w4_b := mk_chc 1 0 false false.
+Definition w4_c := mk_chc 2 0 false false.
+Definition w4_c' := mk_chc 2 1 false false.
+Definition w4_sch : schema :=
+  [(0, wleaf None [[49]] [w4_a]); (1, mk_sinfo (KCont false) None [] false true [] [w4_a] false 0 None OBytes);
+   (2, wleaf (Some 1) [[50]] []); (3, wleaf None [[51]] [w4_a; w4_b]); (4, wleaf None [] [w4_a; w4_b; w4_c]);
+   (5, wleaf None [[52]] [w4_a; w4_b; w4_c']); (6, wleaf None [] [w4_z])].
+Definition w4_parsed : forest := [DN 4 [120] false w_new []].
+Definition w4_valid : forest :=
+  [DN 0 [49] true [] []; DN 1 [] true [] [DN 2 [50] true [] []]; DN 3 [51] true [] []; DN 4 [120] false [] []].
+(* what the seeded change leaves: no implicit node of case a or case b *)
+Definition w4_inner_only : forest := [DN 4 [120] false [] []].
+Definition w4_d0 := snd_or_nil (validate_all w4_sch w4_parsed).
+Lemma w4_f1 : schema_okb w4_sch = true. Proof. vm_compute. reflexivity. Qed.
+Lemma w4_f2 : chc_okb w4_sch = true. Proof. vm_compute. reflexivity. Qed.
+Lemma w4_f3 : canonb w4_sch None w4_parsed = true. Proof. vm_compute. reflexivity. Qed.
+Lemma w4_f4 : freshb w4_sch w4_parsed = true. Proof. vm_compute. reflexivity. Qed.
+Lemma w4_f5 : validate_all w4_sch w4_parsed = Ok (w4_valid, w4_d0). Proof. vm_compute. reflexivity. Qed.
+Lemma w4_f6 : normalb w4_sch w4_valid = true. Proof. vm_compute. reflexivity. Qed.
+Lemma w4_f7 : validate_all w4_sch w4_valid = Ok (w4_valid, []). Proof. vm_compute. reflexivity. Qed.
+Lemma w4_f8 : normalb w4_sch w4_inner_only = false. Proof. vm_compute. reflexivity. Qed.
+Lemma w4_f9 : strip w4_valid = w4_inner_only. Proof. vm_compute. reflexivity. Qed.
+Lemma w4_f10 : sids_uniqb w4_sch = true /\ keys_plainb w4_sch = true. Proof. vm_compute. split; reflexivity. Qed.
